@@ -100,7 +100,7 @@ def unit(u):
 def run(tier, seed):
     t0 = time.time()
     acc = propmc.run(PROP, tier, seed, types=sorted(ENTAILING))
-    fams = ("F1", "F2", "F3", "F4", "F5")
+    fams = ("F1", "F2", "F3", "F4", "F5", "F6")
     eng, nspecs = SC.run_units(unit, tier, seed, fams, chunk=20, filt=lambda s: eligible(s, tier))
     acc.merge(eng)
     cov = {
